@@ -11,7 +11,7 @@ EXPLANATION = ('Static rules on the two-input operators: M0 both inputs are wire
                'slot empty); M2 merge/combine_latest/zip complete downstream only on the second completion (first completion only sets the '
                'flag); M3 take_until completes the main slot on the notifier\'s first item and ignores the notifier\'s own terminal, '
                'skip_until opens the gate on a notifier item only; M4 sample and buffer move the gathered data out before emitting it '
-               '(no duplication on the next tick). Does not decide pairing, latest-value selection or per-interleaving outputs.')
+               '(no duplication on the next tick); M5 zip\'s pending queues are first-in-first-out (necessary for pairing the i-th items). Does not decide pairing, latest-value selection or per-interleaving outputs.')
 ASSUMPTIONS = ['the interleaving of the two inputs is arbitrary; only per-event handlers are analysed']
 
 SHARED = ['MutRc<ops::merge::MergeObserver>', 'MutArc<ops::merge::MergeObserver>',
@@ -25,11 +25,12 @@ CONTROLS = [
     'M1|<rc::MutRc<verif_controls::PeekShared<O>> as Observer>::error',
     'M2|<rc::MutRc<verif_controls::PeekShared<O>> as Observer>::complete',
     'M4|<verif_controls::CloneTick<O, V> as Observer>::next',
+    'M5|src/verif_controls.rs field `stack`',
 ]
 
 
 def check(cx):
-    return m0(cx) + m1(cx) + m2(cx) + m3(cx) + m4(cx)
+    return m0(cx) + m1(cx) + m2(cx) + m3(cx) + m4(cx) + m5(cx)
 
 
 def m0(cx):
@@ -213,4 +214,13 @@ def m4(cx):
             res.append(Finding(ID, 'M4', label, True, 'emits what take() moved out of the cell', fn['span']))
     if not cx.control and len(sites) < len(M4_SITES):
         res.append(Finding(ID, 'M4', 'floor', False, 'expected %d release sites, found %d' % (len(M4_SITES), len(sites))))
+    return res
+
+
+def m5(cx):
+    """zip pairs the i-th items: its two pending queues are first-in-first-out"""
+    from ..core import fifo_findings
+    res = fifo_findings(cx, ID, 'M5', ('src/ops/zip.rs',))
+    if not cx.control and len(res) < 2:
+        res.append(Finding(ID, 'M5', 'floor', False, 'expected the two zip queues, found %d' % len(res)))
     return res
